@@ -120,12 +120,19 @@ def object_ord(run, self, other):
 
 @method(object, "__hash__")
 def object_hash(run, self):
-    return VInt(int, run.fresh_int("hash"))
+    return VInt(int, run.fresh_int("hv_hash"))
 
 
-@method(object, "__repr__", "__str__")
+@method(object, "__repr__")
 def object_repr(run, self):
-    return VStr(str, run.fresh("repr", z3.StringSort()))
+    return VStr(str, run.fresh("hv_repr", z3.StringSort()))
+
+
+@method(object, "__str__")
+def object_str(run, self):
+    # object.__str__ delegates to type(self).__repr__
+    hit = run.find_attr(self.cls, "__repr__")
+    return run.call(run.bind_raw(hit[0], "__repr__", hit[1], self, self.cls), [])
 
 
 @method(object, "__class__")
@@ -167,7 +174,7 @@ def exc_cause(run, self):
 
 @method(BaseException, "__repr__", "__str__")
 def exc_repr(run, self):
-    return VStr(str, run.fresh("excstr", z3.StringSort()))
+    return VStr(str, run.fresh("hv_excstr", z3.StringSort()))
 
 
 # ====================================================================== int
@@ -300,7 +307,7 @@ def int_hash(run, self):
     c = _as_long(self.t)
     if c is not None:
         return VInt(int, hash(c))
-    return VInt(int, run.fresh_int("hash"))
+    return VInt(int, run.fresh_int("hv_hash"))
 
 
 @method(int, "__repr__", "__str__")
@@ -431,7 +438,10 @@ def _to_fp(run, v):
                 return z3.FPVal(float(c), FP)
             except OverflowError:
                 run.throw(OverflowError, "int too large to convert to float")
-        raise Unsupported("symbolic int -> float coercion")
+        lim = 2 ** 1024
+        if run.branch(z3.Or(v.t >= lim, v.t <= -lim)):
+            run.throw(OverflowError, "int too large to convert to float")
+        return z3.fpRealToFP(RNE, z3.ToReal(v.t), FP)     # correctly rounded int -> binary64
     return None
 
 
@@ -517,7 +527,7 @@ def float_trunc(run, self):
 
 @method(float, "__hash__")
 def float_hash(run, self):
-    return VInt(int, run.fresh_int("hash"))
+    return VInt(int, run.fresh_int("hv_hash"))
 
 
 @method(float, "__repr__", "__str__")
@@ -525,7 +535,7 @@ def float_repr(run, self):
     t = z3.simplify(self.t)
     if z3.is_fp_value(t):
         return VStr(str, repr(_se().fp_to_py(t)))
-    return VStr(str, run.fresh("floatrepr", z3.StringSort()))
+    return VStr(str, run.fresh("hv_floatrepr", z3.StringSort()))
 
 
 @method(float, "__new__")
@@ -650,7 +660,7 @@ def str_contains(run, self, item):
 
 @method(str, "__hash__")
 def str_hash(run, self):
-    return VInt(int, run.fresh_int("hash"))
+    return VInt(int, run.fresh_int("hv_hash"))
 
 
 @method(str, "__str__")
@@ -662,7 +672,7 @@ def str_str(run, self):
 def str_repr(run, self):
     if is_concrete(self):
         return VStr(str, repr(_se().conc(VStr(str, self.t))))
-    return VStr(str, run.fresh("strrepr", z3.StringSort()))
+    return VStr(str, run.fresh("hv_strrepr", z3.StringSort()))
 
 
 @method(str, "__iter__")
@@ -784,7 +794,7 @@ def bytes_add(run, self, other):
 
 @method(bytes, "__hash__")
 def bytes_hash(run, self):
-    return VInt(int, run.fresh_int("hash"))
+    return VInt(int, run.fresh_int("hv_hash"))
 
 
 @method(bytes, "__contains__")
@@ -811,7 +821,7 @@ def bytes_decode(run, self, *a, **kw):
 def bytes_repr(run, self):
     if is_concrete(self):
         return VStr(str, repr(_se().conc(VBytes(bytes, self.t))))
-    return VStr(str, run.fresh("bytesrepr", z3.StringSort()))
+    return VStr(str, run.fresh("hv_bytesrepr", z3.StringSort()))
 
 
 # ====================================================================== list / tuple
@@ -1021,7 +1031,7 @@ for _k in (list, tuple):
 @method(list, "__repr__", "__str__")
 @method(tuple, "__repr__", "__str__")
 def seq_repr(run, self):
-    return VStr(str, run.fresh("seqrepr", z3.StringSort()))
+    return VStr(str, run.fresh("hv_seqrepr", z3.StringSort()))
 
 
 @method(list, "__hash__")
@@ -1107,9 +1117,34 @@ def dict_iter(run, self):
     return VIter(iter([k for k, _ in self.pairs]), "dict_keyiterator")
 
 
+DICT_KEYS = type({}.keys())
+
+
 @method(dict, "keys")
 def dict_keys(run, self):
-    return VSet(type({}.keys()), [k for k, _ in self.pairs])
+    return VSet(DICT_KEYS, [k for k, _ in self.pairs])
+
+
+def _keys_eq(run, self, other):
+    if not isinstance(other, VSet):
+        return NOTIMPL
+    if len(self.items) != len(other.items):
+        return mk_bool(run, False)
+    for a in self.items:
+        if not any(a is b or run.key_eq(a, b) for b in other.items):
+            return mk_bool(run, False)
+    return mk_bool(run, True)
+
+
+METHODS[(DICT_KEYS, "__eq__")] = _keys_eq
+METHODS[(DICT_KEYS, "__ne__")] = lambda run, self, other: (
+    NOTIMPL if not isinstance(other, VSet) else mk_bool(run, z3.Not(run.truth(_keys_eq(run, self, other)))
+                                                          if not isinstance(run.truth(_keys_eq(run, self, other)), bool)
+                                                          else (not run.truth(_keys_eq(run, self, other)))))
+METHODS[(DICT_KEYS, "__iter__")] = lambda run, self: VIter(iter(list(self.items)), "dict_keyiterator")
+METHODS[(DICT_KEYS, "__len__")] = lambda run, self: VInt(int, len(self.items))
+METHODS[(DICT_KEYS, "__contains__")] = lambda run, self, item: mk_bool(
+    run, any(x is item or run.key_eq(x, item) for x in self.items))
 
 
 @method(dict, "values")
@@ -1134,7 +1169,7 @@ def dict_copy(run, self):
 
 @method(dict, "__repr__", "__str__")
 def dict_repr(run, self):
-    return VStr(str, run.fresh("dictrepr", z3.StringSort()))
+    return VStr(str, run.fresh("hv_dictrepr", z3.StringSort()))
 
 
 @method(dict, "__hash__")
